@@ -2,8 +2,7 @@
 (* Trace specification for coarsening (C08) and multi-resolution files (C09).    *)
 EXTENDS Coarsen, TraceKit
 
-Lock == INSTANCE CoarsenLock WITH NSpans <- 1, Batch <- 1, LazyMap <- FALSE, YieldInsideLock <- FALSE,
-                                  pc <- 0, holder <- 0, next <- 0, reading <- 0, done <- 0, pending <- 0, writing <- 0, written <- 0
+Lock == INSTANCE CoarsenLockEvents
 
 VARIABLE l
 
